@@ -642,4 +642,20 @@ theorem vegasPoint_ignores_tail (x t₁ t₂ : List Rat) (ndim : Nat) (h : x.len
     vegasPoint (x ++ t₁) ndim = vegasPoint (x ++ t₂) ndim := by
   unfold vegasPoint; simp [List.take_append_of_le_length, h]
 
+/-! ## Guards of Integrate_MC (fix 52605b2) -/
+
+/-- a request is rejected exactly when the region is empty or of odd length, or the budget is below 1 (Vegas: below 2) -/
+theorem integrateMCRejects_iff (len : Nat) (n : Int) (vegas : Bool) :
+    integrateMCRejects len n vegas = true ↔ (len = 0 ∨ len % 2 ≠ 0 ∨ n < 1 ∨ (vegas = true ∧ n < 2)) := by
+  unfold integrateMCRejects
+  simp [Bool.or_eq_true, Bool.and_eq_true, or_assoc]
+
+/-- every request of the property's quantifier (dimension 1..6, budgets from 1e3) passes the guards -/
+theorem integrateMC_quantifier_accepted (d : Nat) (n : Int) (vegas : Bool) (hd : 1 ≤ d) (hn : 1000 ≤ n) :
+    integrateMCRejects (2 * d) n vegas = false := by
+  have h : ¬ (integrateMCRejects (2 * d) n vegas = true) := by
+    rw [integrateMCRejects_iff]
+    rintro (h | h | h | ⟨_, h⟩) <;> omega
+  simpa using h
+
 end Lp.C14
